@@ -37,6 +37,16 @@ CHECKS = {
             "Seeded histories; after update() (or the accessor's own transaction) with the medium quiescent, every accessor is compared with the chip model's FIFOs, flags, OBSERVE_TX and IRQ line; read/clear/flush are checked for exact footprints.",
             "Trusts chip model decisions M1, M5, M6; exact-length reads only.",
             "5 C10"),
+    "C18": ("exploration",
+            "deterministic simulation: seeded histories of FakeBLE configuration/hop/channel/with-block calls; every sniffed on-air payload decoded by an independent bit-serial BLE reference codec for the tuned channel",
+            "Seeded call histories (plus the complete name-length x show_pa_level x PA x chunk-length grid in thorough); each advertisement is taken from the simulated air with the RF_CH of that transmission and de-whitened/CRC-checked/parsed by a spec-derived codec that shares no code with fake_ble.py; capacity arithmetic is recomputed independently. The history dimension (whitening seed vs. channel register) is what the simulator contributes; no fault is involved.",
+            "Trusts the reference codec and the model's legacy-ShockBurst framing for EN_AA=0/ARC=0.",
+            "5 C18"),
+    "C19": ("fault_enumeration",
+            "deterministic simulation with enumerated air faults: every single-bit flip of each base packet's 32-byte payload plus seeded multi-bit flips, CRC-valid adversarial PDUs from a reference encoder via a scripted injector radio, random payloads",
+            "TX FakeBLE (or the reference encoder through an injector chip) -> simulated air with bit-flip fault rules -> RX FakeBLE; for each base packet all 256 single-bit corruptions are enumerated; the reference codec decides for the 32 bytes actually received whether an element must/may be queued and what it must contain.",
+            "Trusts the reference codec; temperature tolerance of one 0.01 unit; length byte < 6 or RFU bits: either outcome accepted.",
+            "5 C19"),
 }
 
 REASON_PENDING = "check not built yet in this commit (planned, see DESIGN.md section 5)"
